@@ -58,18 +58,22 @@ fn check<C: ImgCol>(d: &mut Dec, cx: &mut Cx, kind: u32) -> Res {
         let y0 = bb.top_left.y + d.i(-2, h);
         Rectangle::new(Point::new(x0, y0), Size::new(d.u(0, w as u32 + 2), d.u(0, h as u32 + 2)))
     };
-    cx.describe(|| format!("{} clip_window={:?}", item.desc(), win));
+    let target_box = if d.bool() { win } else { BIG_BOX };
+    cx.describe(|| format!("{} clip_window={:?} target_box={:?}", item.desc(), win, target_box));
     cx.class(KIND_NAMES[kind as usize]);
     let k = item.kind();
 
-    let mut a = IterT::<C>::new();
+    // the targets report a small bounding box (the window) in half of the cases, so the drawable is
+    // usually partly or fully outside the target; the recorders do not clip, so the complete maps
+    // are compared
+    let mut a = IterT::<C>::with_box(target_box);
     item.draw(&mut a).map_err(|e| err(k, "draw_iter_only", e))?;
-    let mut b = NativeT::<C>::new();
+    let mut b = NativeT::<C>::with_box(target_box);
     item.draw(&mut b).map_err(|e| err(k, "draw_native", e))?;
     if let Some(df) = diff_maps("draw() on draw_iter-only target", &a.0.map, "draw() on native-fill target", &b.0.map) {
         return fail(format!("{}:native_vs_iter", k), df);
     }
-    let mut c = IterT::<C>::new();
+    let mut c = IterT::<C>::with_box(target_box);
     if let Some(r) = item.draw_pixels(&mut c) {
         r.map_err(|e| err(k, "pixels", e))?;
         if let Some(df) = diff_maps("draw()", &a.0.map, "pixels() via draw_iter", &c.0.map) {
